@@ -219,10 +219,67 @@ pub static C05: Profile = Profile {
 
 // =============================================================================== C06
 
-/// knob 0: mode. 0 = stalled, one producer; 1 = stalled, several producers; 2 = running reducer.
-pub fn c06_build(raw: &Raw, _tier: Tier, _sched: bool) -> Scenario {
+/// The store is closed while its reducer is held and its queue is full, and another client keeps
+/// dispatching meanwhile: neither the close nor those dispatches may wait for the reducer (the
+/// gate is opened only after all of them have returned, so waiting is a deadlock).
+fn c06_close_while_held(raw: &Raw) -> Scenario {
     let mut b = ScnB::new();
-    let mode = knob(raw, 0) % 3;
+    let cap = SMALL_CAPS[pick(knob(raw, 1), SMALL_CAPS.len())];
+    let policy = if knob(raw, 2) % 2 == 0 { Pol::DropOldest } else { Pol::DropLatest };
+    let s = b.store("c06", cap, policy, CTORS[pick(knob(raw, 3), 3)].clone());
+    let r0 = b.reducer(s);
+    let sub = b.sub(SubKind::Direct);
+    b.s.prelude.push(Op::Subscribe { store: s, sub });
+    let g = b.gate();
+    b.comp_mut(r0).gate = Some(g);
+    let (filled, done) = (b.gate(), b.gate());
+    let primer = b.action(s, 0);
+    b.s.prelude.push(Op::Dispatch { act: primer, via: Via::Inherent });
+    b.s.prelude.push(Op::GateAwait { gate: g, entered: 1 });
+    // P1 fills the queue (and overflows it by a generated amount), then tells the others
+    let p1 = b.thread();
+    let n1 = cap + pick(knob(raw, 4), 3);
+    for i in 0..n1 {
+        let a = b.action(s, (i % 4) as u8);
+        b.s.threads[p1].push(Op::Dispatch { act: a, via: VIAS[(knob(raw, 5) as usize + i) % 3] });
+    }
+    b.s.threads[p1].push(Op::GateSignal { gate: filled });
+    b.s.threads[p1].push(Op::GateSignal { gate: done });
+    // the closer
+    let cl = b.thread();
+    b.s.threads[cl].push(Op::GateAwait { gate: filled, entered: 1 });
+    b.s.threads[cl].push(Op::Stall(stall_of(knob(raw, 6))));
+    b.s.threads[cl].push(if knob(raw, 7) % 2 == 0 { Op::Close { store: s } } else { Op::GetMetrics { store: s } });
+    b.s.threads[cl].push(Op::Close { store: s });
+    b.s.threads[cl].push(Op::GateSignal { gate: done });
+    // P2 keeps dispatching while the store is being closed
+    let p2 = b.thread();
+    b.s.threads[p2].push(Op::GateAwait { gate: filled, entered: 1 });
+    let n2 = 1 + pick(knob(raw, 8), 4);
+    for i in 0..n2 {
+        if (knob(raw, 9) >> i) & 1 == 1 {
+            b.s.threads[p2].push(Op::Stall(stall_of(knob(raw, 10).wrapping_add(i as u16))));
+        }
+        let a = b.action(s, (i % 4) as u8);
+        b.s.threads[p2].push(Op::Dispatch { act: a, via: VIAS[(knob(raw, 11) as usize + i) % 3] });
+    }
+    b.s.threads[p2].push(Op::GateSignal { gate: done });
+    let c = b.thread();
+    b.s.threads[c].push(Op::GateAwait { gate: done, entered: 3 });
+    b.s.threads[c].push(Op::GateOpen { gate: g });
+    b.s.epilogue.push(Op::Stop { store: s, via_trait: false });
+    b.s.epilogue.push(Op::GetMetrics { store: s });
+    b.finish()
+}
+
+/// knob 0: mode. 0 = stalled, one producer; 1 = stalled, several producers; 2 = running reducer;
+/// 3 = closed while held (see above).
+pub fn c06_build(raw: &Raw, _tier: Tier, _sched: bool) -> Scenario {
+    if knob(raw, 0) % 4 == 3 {
+        return c06_close_while_held(raw);
+    }
+    let mut b = ScnB::new();
+    let mode = knob(raw, 0) % 4;
     let cap = SMALL_CAPS[pick(knob(raw, 1), SMALL_CAPS.len())];
     let policy = if knob(raw, 2) % 2 == 0 { Pol::DropOldest } else { Pol::DropLatest };
     let ctor = CTORS[pick(knob(raw, 3), 3)].clone();
@@ -232,6 +289,7 @@ pub fn c06_build(raw: &Raw, _tier: Tier, _sched: bool) -> Scenario {
     b.s.prelude.push(Op::Subscribe { store: s, sub });
     let settle = b.gate();
     if mode < 2 {
+        // (mode 3 is handled above)
         let g = b.gate();
         b.comp_mut(r0).gate = Some(g);
         let done = b.gate();
@@ -299,6 +357,19 @@ pub fn c06_check(scn: &Scenario, h: &History) -> Outcome {
         out.viol(m);
     }
     let s = 0;
+    if scn.threads.iter().flatten().any(|o| matches!(o, Op::Close { .. })) {
+        // closed while the reducer was held: the scenario completing at all is the verdict (a
+        // close() or dispatch that waits for the reducer deadlocks); which of the racing
+        // dispatches were still admitted is not determined
+        out.class("closed-while-the-reducer-was-held");
+        out.nontrivial = true;
+        for x in d.disps.iter().filter(|x| matches!(x.via, Some(Via::Inherent) | Some(Via::StoreTrait)) && x.ok == Some(false)) {
+            if x.ret.map(|r| r < d.stores[s].first_shutdown_inv.unwrap_or(usize::MAX)).unwrap_or(false) {
+                out.viol(format!("dispatch of action {} through the store's own dispatch returned Err before the store was closed", x.act));
+            }
+        }
+        return out;
+    }
     let cap = scn.stores[s].capacity;
     let policy = scn.stores[s].policy;
     let runs = &p.runs[s];
